@@ -41,6 +41,14 @@ def instantiations(tier, seed):
         out.append({"part": "from_list", "ids": [str(i) for i in ids], "cls": "integer", "nested": False})
         out.append({"part": "from_list", "ids": [str(i) for i in ids][:3], "cls": ["boolean", "integer"][k % 2], "nested": True})
         out.append({"part": "linalg", "ids": ids, "rows": 1 + k % 2})
+    # ids that differ only by their type (generated integer ids next to user string ids): "arbitrary ids incl. non-string"
+    for k, ids in enumerate([[0, 1, "0", "1", "a"], ["x", 4, "4"], [2, "2", 10, "10"]]):
+        out.append({"part": "from_list", "ids": ids, "cls": "boolean", "nested": False})
+        out.append({"part": "from_list", "ids": ids, "cls": "integer", "nested": False})
+        out.append({"part": "from_list", "ids": ids[:3], "cls": ["boolean", "integer"][k % 2], "nested": True})
+        out.append({"part": "to_list", "ids": ids, "nd": 1})
+        out.append({"part": "indices", "ids": ids})
+        out.append({"part": "construct", "ids": ids, "dtype": DTYPES[k % 4], "default": "none"})
     for mu in ("shifted_column", "default_upper"):
         out.append({"kind": "mutant", "mutant": mu, "part": "construct", "ids": ["a", "b", "c"], "dtype": "int64", "default": "none"})
     return out
@@ -218,7 +226,7 @@ def run_inst(spec, run):
                     gids = [v.id for v in got]
                     for j in range(n):
                         viol.append((row[j].e == 1) != z3.BoolVal(ids[j] in gids))
-                    if len(gids) != len(set(map(str, gids))) or any(g not in ids for g in gids):
+                    if len(gids) != len(set((type(g).__name__, g) for g in gids)) or any(g not in ids for g in gids):
                         viol.append(z3.BoolVal(True))
                 run.obligation(ctx, "to_list", z3.Or(viol), conc)
                 run.validate(ctx, conc, lambda m: {"res": [[str(v.id) for v in got] for got in res]})
